@@ -1,7 +1,7 @@
 (* Properties_C16_pfor.v — property C16 for varintPFOR: the metadata filled in by
    varintPFORComputeThreshold / varintPFOREncode and the header read back by
    varintPFORReadMeta / varintPFORDecode describe the encoded data. *)
-Require Import VV.Base VV.Tagged VV.PFOR VV.PFORSpec VV.PFORTheorems VVgen.Consts.
+Require Import VV.Base VV.Tagged VV.PFOR VV.PFORSpec VV.PFORProofs VV.PFORTheorems VVgen.Consts.
 Local Open Scope N_scope.
 
 (* count, min, thresholdValue, width, marker, exceptionCount, threshold of the
@@ -26,6 +26,16 @@ Theorem C16_pfor_meta_truth : forall xs thr,
   pfor_encode_bytes xs thr = pfor_layout m xs.
 Proof. exact pfor_meta_truth. Qed.
 Print Assumptions C16_pfor_meta_truth.
+
+(* the exception count computed by ComputeThreshold equals the number of
+   records Encode's first pass makes, for every input (also the empty one): the
+   second pass reads exactly the records written, and the count written to the
+   stream is the number of pairs that follow *)
+Theorem C16_pfor_exception_records_consistent : forall xs thr,
+  let m := pfor_compute_threshold xs thr in
+  pm_exc m = N.of_nat (length (snd (pfor_enc_values m (0 <? pm_exc m) 0 xs))).
+Proof. exact pfor_exc_count_consistent. Qed.
+Print Assumptions C16_pfor_exception_records_consistent.
 
 (* the slots holding the all-ones marker are exactly the listed outliers *)
 Theorem C16_pfor_marker_slot_iff : forall xs thr v,
